@@ -26,6 +26,23 @@ def sort_labels(kind, k):
     return values.default_label(kind, k)
 
 
+# leaf dtypes x extremal value pools (every kernel instantiation of the sort templates): neighbours that collide when
+# rounded to double or float, the limits of the type, zero, and for floats NaN / infinities / denormals
+DTYPE_POOLS = [
+    ("bool", B, [False, True]),
+    ("int8", I, [-128, -1, 0, 1, 127]),
+    ("uint8", I, [0, 1, 127, 128, 255]),
+    ("int16", I, [-32768, -1, 0, 255, 256, 32767]),
+    ("uint16", I, [0, 255, 256, 32767, 32768, 65535]),
+    ("int32", I, [-2 ** 31, -2 ** 24 - 1, -2 ** 24, 0, 2 ** 24, 2 ** 24 + 1, 2 ** 31 - 1]),
+    ("uint32", I, [0, 2 ** 24, 2 ** 24 + 1, 2 ** 31 - 1, 2 ** 31, 2 ** 32 - 1]),
+    ("int64", I, [-2 ** 63, -2 ** 63 + 1, -2 ** 53 - 1, 0, 2 ** 53, 2 ** 53 + 1, 2 ** 63 - 2, 2 ** 63 - 1]),
+    ("uint64", I, [0, 2 ** 53, 2 ** 53 + 1, 2 ** 63 - 1, 2 ** 63, 2 ** 64 - 2, 2 ** 64 - 1]),
+    ("float32", F, [0.0, 1.401298464324817e-45, 16777216.0, -3.4028234663852886e+38, math.inf, -math.inf, math.nan]),
+    ("float64", F, [0.0, 5e-324, 9007199254740992.0, 9007199254740994.0, -1.7976931348623157e+308, math.inf, -math.inf, math.nan]),
+]
+
+
 class C06(e1.E1Check):
     id = "C06"
     types_quick = [I, F, B, S, BY, var(I), var(F), var(B), var(S), opt(I), opt(F), var(opt(I)), var(opt(F)), opt(var(I)),
@@ -41,6 +58,26 @@ class C06(e1.E1Check):
             "unchanged; illegal axes must raise. Non-innermost axes are compared between encodings by C02 only. non-trivial = "
             "result with at least one element or required error.")
     assumptions = ["bridge+mirror marshalling", "reference ordering in model/refops.py (NaN first both directions, None last)"]
+
+    def extra_states(self, tier):
+        import itertools
+        import numpy as np
+        L = 2 if tier == "quick" else 3
+        groups = []
+        for name, leaf, pool_ in DTYPE_POOLS:
+            lists = [list(c) for n in range(0, L + 1) for c in itertools.product(pool_, repeat=n)]
+            if tier == "quick" and len(pool_) > 6:     # all pairs, and the triples over the first 5 values
+                lists += [list(c) for c in itertools.product(pool_[:5], repeat=3)]
+            group = []
+            for k in range(0, len(lists), 40):
+                chunk = lists[k:k + 40]
+                flat = [x for lst in chunk for x in lst]
+                off = np.cumsum([0] + [len(lst) for lst in chunk]).astype(np.int64)
+                d = {"class": "ListOffsetArray64", "offsets": off,
+                     "content": {"class": "NumpyArray", "array": np.array(flat, dtype=name)}}
+                group.append((var(leaf), chunk, [(d, ["dtype-" + name])]))
+            groups.append(group)
+        return groups
 
     def alphabet(self, T, tvs, tier):
         lo, hi = refops.array_depth(T)
